@@ -71,7 +71,7 @@ def run(ctx):
         rng = ctx.subrng('prog', k)
         k += 1
         try:
-            pr = termgen.gen_program(rng, pygam, allow_constraints=True)
+            pr = termgen.gen_program(rng, pygam, allow_constraints=True, one_level_prob=0.2)   # one-level factors: a 0-column block under dummy coding
         except ValueError as e:
             ctx.count('generator-rejected', str(e)[:40])
             continue
@@ -125,7 +125,12 @@ def run(ctx):
         impl_idx = []
         for i in range(len(tl)):
             ix = tl.get_coef_indices(i)
-            impl_idx.append((ix[0], ix[-1] + 1) if len(ix) else (None, None))
+            if len(ix):
+                impl_idx.append((ix[0], ix[-1] + 1))
+            else:
+                # an empty block (one-level factor under dummy coding) addresses no column: the model says [a, a)
+                a_b = model_idx[i] if i < len(model_idx) else (None, None)
+                impl_idx.append(a_b if a_b[0] == a_b[1] else (None, None))
         impl_total = int(tl.n_coefs)
         all_ix = tl.get_coef_indices(-1)
         # oracle: contiguous, disjoint, covering, width == number of columns of the term
@@ -148,10 +153,10 @@ def run(ctx):
         full = dense(tl.build_columns(Xq))
         ref = np.hstack([oracle_term(t, Xq) for t in tl])
         ctx.case(st_or, sig, nontrivial=nontriv)
-        oracle_bad = full.shape != ref.shape or np.abs(full - ref).max() > 1e-12 * max(1.0, np.abs(ref).max())
+        oracle_bad = full.shape != ref.shape or np.abs(full - ref).max(initial=0.0) > 1e-12 * max(1.0, np.abs(ref).max(initial=0.0))
         if oracle_bad:
             ctx.fail(st_or, dict(kind='columns', kinds=sorted(set(pr.desc['kinds']))), dict(tokens=sig['tokens'], Xq=Xq.tolist()),
-                     observed=dict(shape=list(full.shape), maxdiff=(float(np.abs(full - ref).max()) if full.shape == ref.shape else None)),
+                     observed=dict(shape=list(full.shape), maxdiff=(float(np.abs(full - ref).max(initial=0.0)) if full.shape == ref.shape else None)),
                      expected='hstack of documented per-term columns', oracle='NumPy recomputation of the documented column rule')
         rows_model = []
         for r in range(Xq.shape[0]):
@@ -164,7 +169,7 @@ def run(ctx):
             model = np.array(rows_model)
             if model.shape != full.shape or (np.abs(model - full) > TOL * np.maximum(1.0, np.abs(model))).any():
                 if not oracle_bad:
-                    d = float(np.abs(model - full).max()) if model.shape == full.shape else None
+                    d = float(np.abs(model - full).max(initial=0.0)) if model.shape == full.shape else None
                     ctx.disagree(st_row, sig, dict(shape=list(full.shape)), dict(shape=list(model.shape), maxdiff=d), 'model rows differ from build_columns although the NumPy oracle agrees with the implementation')
         # ---- per term
         for ti, t in enumerate(tl):
@@ -176,7 +181,7 @@ def run(ctx):
                 ctx.disagree(st_term, sig, a.tolist(), 'bad-op', 'model rejected term')
                 continue
             mrow = np.array([float(v) for v in common.parse_vec(o)])
-            if a.shape != b.shape or np.abs(a - b).max() > 0:
+            if a.shape != b.shape or np.abs(a - b).max(initial=0.0) > 0:
                 ctx.fail(st_term, dict(kind='term-vs-list'), dict(tokens=sig['tokens'], term=ti), observed=dict(term=a.tolist(), viaList=b.tolist()),
                          expected='TermList.build_columns(X, term=i) == terms[i].build_columns(X)', oracle='consistency')
             elif mrow.shape != a.shape or (np.abs(mrow - a) > TOL * np.maximum(1.0, np.abs(mrow))).any():
@@ -238,10 +243,10 @@ def run_large(ctx):
         sub = np.asarray(big[rows].todense())
         small = np.asarray(tl.build_columns(X[rows]).todense())
         ref = np.hstack([oracle_term(t, X[rows]) for t in tl])
-        if sub.shape != small.shape or np.abs(sub - small).max() > 0 or np.abs(sub - ref).max() > 1e-12 * max(1.0, np.abs(ref).max()):
+        if sub.shape != small.shape or np.abs(sub - small).max(initial=0.0) > 0 or np.abs(sub - ref).max(initial=0.0) > 1e-12 * max(1.0, np.abs(ref).max(initial=0.0)):
             bad = np.nonzero(np.abs(sub - ref).max(axis=1) > 1e-12)[0]
             ctx.fail(st, dict(kind='large-rows'), dict(sig, first_bad_row=int(rows[bad[0]]) if len(bad) else None),
-                     observed=dict(rows_differing=int(len(bad)), maxdiff=float(np.abs(sub - ref).max())),
+                     observed=dict(rows_differing=int(len(bad)), maxdiff=float(np.abs(sub - ref).max(initial=0.0))),
                      expected='each row of a large model matrix = the documented columns of that row', oracle='row-wise recomputation')
 
 
